@@ -55,6 +55,15 @@ CHECKS = {
  "C16": ("E2 edit-history explorer", "explicit-state search over edit histories of the real System; per distinct state: reference edit model (mc/e2.py model_apply) conformance + differential of all reports against a fresh build of the same structure",
          "Each distinct state reached by accepted edits is compared with the reference edit semantics applied to the same history and, report by report, with a system built from scratch; the model is bound to the code by this conformance check on every state.",
          "reference edit semantics transcribe the documentation (sets of outcomes where it is silent); 5-letter alphabet", "4"),
+ "C17": ("E2 edit-history explorer", "exhaustive enumeration of all ordered pairs (triples) of 12 analyses on representative systems with white-box snapshot comparison, plus fault enumeration on batt_life (exception at every k-th callback, solver fault) on the real code",
+         "Every ordered pair of analyses is executed on every representative system; the snapshot and the argument objects must be unchanged and the last result must equal its result on a fresh build. Every position of a callback / solver fault in every answer sequence is executed.",
+         "7 representative systems; K_full covers what the methods read; DOT text instead of images", "4"),
+ "C18": ("E3 environment-answer explorer", "stateless exhaustive enumeration of all battery-callback answer sequences up to depth k x terminators x phase sets x battery placements on the real batt_life(); recorded callback arguments compared with solve() of a fresh equivalent system",
+         "The callbacks are the environment: all answer sequences of the menu are executed and every argument the library passes in is predicted from a fresh system holding the battery's present state.",
+         "deterministic scripted callbacks; one system shape per variant", "4"),
+ "C19": ("E1 structure explorer", "exhaustive enumeration of group assignments x configuration menu x plain/heat x grouping over system shapes, rendered by the real code to DOT text and parsed; subset through real Graphviz; SI-label magnitude lattice",
+         "Every assignment of components to groups and every configuration of the menu is rendered; nodes, edges, clusters, attribute precedence, heat labels / colours / legend are recomputed from the system and its solved losses.",
+         "DOT subset tokenizer; PNG back-end not inspected", "5"),
 }
 NOT_YET = {}
 ALL = ["C%02d" % i for i in range(1, 21)]
